@@ -563,7 +563,14 @@ let run_poly (w : string list) : string =
     (match M.first_root (nat_of_int 44) c zero one with
      | M.NoRoot -> "none"
      | M.Maybe (a, b) -> pr "in:%s:%s:%d" (string_of_q a) (string_of_q b) (if M.sign_change c a b then 1 else 0))
-  | ["touchend"; _] -> "te=1:1"
+  | ["touchend"; cs] ->
+    (match qs_of_hexcsv cs with
+     | [b; a] ->
+       let zero = { M.qnum = Z.zero; M.qden = Z.one } and one = { M.qnum = Z.one; M.qden = Z.one } in
+       let y0 = M.eval_linear_f32 b a zero and y1 = M.eval_linear_f32 b a one in
+       let t y = match M.touches_linear b a y with Some _ -> 1 | None -> 0 in
+       pr "te=%d:%d y=%s:%s" (t y0) (t y1) (string_of_q y0) (string_of_q y1)
+     | _ -> "bad-args")
   | ["extrema"; cs] ->
     let c = qs_of_hexcsv cs in
     let one = { M.qnum = Z.one; M.qden = Z.one } and zero = { M.qnum = Z.zero; M.qden = Z.one } in
